@@ -519,6 +519,14 @@ class LoopRun:
             item = Sym(xs.kind.elem, xs.t[k.t])
             # the element visited is a member of the sequence
             run.axiom(z3.Implies(z3.And(k.t >= 0, k.t < n), z3.Contains(xs.t, z3.Unit(xs.t[k.t]))))
+            mi = run.ghost.get('_items', {}).get(xs.t.sexpr())
+            if mi is not None:
+                mk_, mt_, tk_ = mi          # the k-th item of m.items() is (keys[k], m[keys[k]]); keys[k] is present
+                keys_ = mk_.keys(mt_)
+                sel_ = z3.Select(mk_.arr(mt_), keys_[k.t])
+                run.axiom(z3.Implies(z3.And(k.t >= 0, k.t < n),
+                                     z3.And(xs.t[k.t] == tk_.mk(keys_[k.t], mk_.optv.val(sel_)), z3.Not(mk_.optv.is_none(sel_)),
+                                            z3.Contains(keys_, z3.Unit(keys_[k.t])))))
             en = run.ghost.get('_enum', {}).get(xs.t.sexpr())
             if en is not None:
                 tk_, st_, base_ = en        # the k-th element of enumerate(base, start) is (k + start, base[k])
